@@ -31,6 +31,11 @@ ProfSchema == [Base EXCEPT !.methods = {"pt", "n", "m", "ok"}, !.consts = {<<"in
                  !.binops = {"/"}, !.ifexp = TRUE, !.aggs = {"Count"}, !.where = FALSE,
                  !.rows = {"bool", "seq", "seqseq", "tuple", "list", "dict"}, !.rootnames = {1, 2}]
 
+\* C03 / C13: SEVERAL aggregates (and plain literals) side by side in one row: a floating Sum next to a Count next to a 0 -
+\* every column keeps its own kind whatever its neighbours are and in whatever order they come
+ProfAggRows == [Base EXCEPT !.methods = {"pt", "vals"}, !.aggs = {"Count", "Sum"}, !.consts = {<<"int", 0, 1>>}, !.where = FALSE,
+                  !.cmpops = {}, !.rows = {"tuple"}, !.must = {"Sum", "Tuple"}]
+
 \* C13: operators x operand kinds (int literal, int count, float, double, bool)
 ProfArith == [Base EXCEPT !.methods = {"pt", "m", "n", "ok"}, !.consts = {<<"int", 2, 1>>, <<"int", 7, 1>>, <<"double", 1, 2>>},
                 !.binops = {"+", "-", "*", "/", "%", "**"}, !.unops = {"-", "+"}, !.not = TRUE,
